@@ -39,7 +39,7 @@ CHECKS = {
     category="exploration", design_ref="DESIGN.md §5 C01, §4.2",
     technique="exhaustive enumeration of model definitions within a bounded number of named-choice edits of seed models (iterative deviation bounding over a generator grammar) plus a complete small-scope block; each definition compared with sympy reference semantics",
     text="For every enumerated definition (events of 1-3 T/B/D transitions, numeric and symbolic magnitudes, 8 rate templates incl. time-periodic, ODE terms, derived parameters, 7 declaration styles) the symbolic ode / state-change matrix / rate vector / explicit terms equal the reference, ode == V*a + explicit terms, the reactant matrix is the support pattern, and the numeric evaluators equal mpmath evaluation of the reference at 5 points on one model instance (parameters re-assigned between points, one point repeated with other parameters); Cython back-end on the seeds. Each definition with two or more processes is also reached from a non-initial state (built without its last process, everything evaluated, last process added; questions asked in rotated order) and judged next to a live, fully evaluated twin declared in the opposite order.",
-    note="Reference = sympy on the definition alone. quick: all 1-edit neighbours of 6 seeds + a VERIF_SEED-selected 1/6 slice of the 2-edit neighbourhoods and 1/7 of the block (not exhaustive, flagged); thorough: complete 2-3 edit neighbourhoods and block."),
+    note="Reference = sympy on the definition alone. quick: all 1-edit neighbours of 6 seeds + a VERIF_SEED-selected 1/6 slice of the 2-edit neighbourhoods and 1/7 of the block (not exhaustive, flagged); thorough: the complete 2-edit neighbourhoods of all six seeds and the complete block, every third definition also grown / as a twin."),
  "C03": dict(
     category="exploration", design_ref="DESIGN.md §5 C03",
     technique="same generator exploration as C01 with sympy.diff of the reference right-hand side as oracle",
